@@ -262,6 +262,7 @@ def worker(ctx):
             det = dm.Glushkov(g['cm'][1]).deterministic(); ops = dm.cm_operators(g['cm'][1])
             labels += ['A:deterministic' if det else 'A:nondeterministic', 'A:ops=%d' % min(ops, 6), 'A:depth=%d' % dm.cm_depth(g['cm'][1])]
             nontriv = (not det) or ops >= 2
+            labels.append('A:2nd-witness=' + ('derivatives' if dm.star_of_nullable(g['cm'][1])[1] else 're(<=5)+derivatives(>5)'))
         nrej = sum(1 for r in case['rows'] if not r[2])
         st_.extra['sequences'] += len(case['rows']); st_.extra['sequences_rejected_by_model'] += nrej
         st_.note(xv.sha([case['doc_b64'], case['files_b64'], case['ns']]), nontriv, labels)
